@@ -1,6 +1,8 @@
 package checker
 
 import (
+	"strings"
+
 	"github.com/jsightapi/jsight-schema-core/bytes"
 	"github.com/jsightapi/jsight-schema-core/errs"
 	"github.com/jsightapi/jsight-schema-core/json"
@@ -51,7 +53,11 @@ func (c *checkSchema) checkType(name string, typ ischema.Type, ss map[string]isc
 		if jErr, ok := r.(kit.JSchemaError); ok {
 			jErr.SetFile(typ.RootFile)
 			jErr.SetIndex(bytes.Index(jErr.Index()) + typ.Begin)
-			jErr.SetIncorrectUserType(name)
+			if !strings.HasPrefix(name, "#") {
+				// Unnamed types (`@a | @b`, rule-sets of `or`) are named after a
+				// memory address: not something to show to the user.
+				jErr.SetIncorrectUserType(name)
+			}
 			panic(jErr)
 		}
 
